@@ -7,11 +7,13 @@
 (* (symbol code = 10 * index of the kind + presentation).  Every           *)
 (* Determined content is exported with the documented rewrite, with what   *)
 (* each set of named deviations predicts instead, and the same for a       *)
-(* second run on the rewritten content.  UpgradeTheorems is checked on     *)
-(* every content.                                                          *)
+(* second run on the rewritten content, and with the contents admitted     *)
+(* for a *.html and a *.py file below the searched directory.              *)
+(* UpgradeTheorems is checked on every content.                            *)
 (*                                                                         *)
 (* TSpec (trees): every tree of at most MaxFiles files over the locations, *)
-(* extensions and two contents below, under every invocation (--path       *)
+(* extensions and two contents below (plus an image that is not text in    *)
+(* every location), under every invocation (--path                         *)
 (* given for lib / proj/components / proj/ui or omitted, COMPONENTS.dirs    *)
 (* default or custom); exported with the set of admitted contents of each  *)
 (* file after the command.                                                 *)
@@ -41,7 +43,12 @@ CSpec == CInit /\ [][CNext]_uVars
 CTheorems == UpgradeTheorems(s)
 CExport ==
   \/ ~Determined(s)
-  \/ Serialize(ToJson([s |-> s, exp |-> Upgrade(s), devs |-> DevAlts(s), devs2 |-> DevAlts(Upgrade(s))]) \o "\n",
+  \/ Serialize(ToJson([s |-> s, exp |-> Upgrade(s), devs |-> DevAlts(s), devs2 |-> DevAlts(Upgrade(s)),
+                       \* the contents admitted after `upgradecomponent --path lib` for lib/tpl/f<ext> holding s
+                       adm |-> [e \in {".html", ".py"} |->
+                                  {t.c : t \in AdmittedAfter(<<"lib", "tpl", "f" \o e>>, User(s),
+                                                             [usepath |-> TRUE, w |-> "P", cdirs |-> "default"])}]
+                      ]) \o "\n",
                IOEnv.OUT, [format |-> "TXT", charset |-> "UTF-8",
                            openOptions |-> <<"WRITE", "CREATE", "APPEND">>]).exitValue = 0
 
